@@ -9,7 +9,7 @@ export GOFLAGS=-mod=mod GOPROXY=off GOSUMDB=off GOTOOLCHAIN=local
 K=$$
 WT=/tmp/se-wt-$K; VF=/tmp/se-vf-$K
 trap 'git -C /repo worktree remove --force $WT 2>/dev/null; rm -rf $VF' EXIT
-git -C /repo worktree add -q --detach $WT HEAD || exit 2
+git -C /repo worktree add -q --detach $WT ${BASE_REV:-HEAD} || exit 2
 if ! git -C $WT apply "$P"; then echo "patch does not apply"; exit 2; fi
 mkdir -p $VF
 rsync -a --exclude .build --exclude .scratch --exclude seeded --exclude evidence --exclude replays --exclude .git /verif/ $VF/
